@@ -332,8 +332,9 @@ def deductive(rep: Report, tier):
             if len(tail) >= 2:
                 lrules[(SC + v, tail[0])] = Snap(arrays={"H_final": fo}, tag="cleanup.outer.")
                 lrules[(SC + v, tail[1])] = FunctionalInv(arrays={"H_final": fi}, tag="cleanup.inner.")
+        # the sites of the clean-up invariants are obligations of this case (without them the closed form of the clean-up would be assumed)
         run_case(rep, P, SC + v, "epilogue", setup, post, lib=Library("idx"), contracts=contracts, loop_rules=lrules,
-                 clauses=cl, replay=replay_variants, timeout_s=20, site_obligations=False)
+                 clauses=cl, replay=replay_variants, timeout_s=20, site_obligations=(lambda key: "cleanup." in key))
 
         def setup_g(I, ctx):
             m, n = dims(ctx, "m", "n")
